@@ -489,13 +489,71 @@ package table
 //@   assumed
 //@   modifies nothing
 
-//@ func (*Manager).startTable
+// startTable: the shard is started under the catalogue's id for this node, with a state machine
+// built for the table's own name, the configured data directory / file system / snapshot format, and
+// an applied-index listener that reports under the table's own name
+//@ import fsm "github.com/jamf/regatta/storage/table/fsm"
+//@ import config "github.com/lni/dragonboat/v4/config"
+//@ func dragonboat.(*NodeHost).HasNodeInfo
 //@   assumed
-//@   requires m != nil
+//@   modifies nothing
+//@ func dragonboat.(*NodeHost).StartOnDiskReplica
+//@   assumed
+//@   params nh, initialMembers, join, create, cfg
+//@   modifies nothing
+//@ func fsm.New
+//@   assumed
+//@   ensures result != nil
+//@   modifies nothing
+//@ func tableRaftConfig
+//@   ensures [C14.raftcfg] result.ReplicaID == nodeID && result.ShardID == clusterID && result.CheckQuorum && result.OrderedConfigChange && result.MaxInMemLogSize == cfg.MaxInMemLogSize && result.SnapshotEntries == cfg.SnapshotEntries && result.CompactionOverhead == cfg.CompactionOverhead
+//@   modifies nothing
+//@ func listenerContract
+//@   assumed
+//@   params table, rev
+//@   modifies nothing
+//@ func (*Manager).startTable$1
+//@   functype TableConfig.AppliedIndexListener listenerContract
+//@   requires *m != nil
+//@   before listenerContract assert [C11.listener.name+C14] table == *name && rev == applied
+//@   modifies nothing
+//@ func (*Manager).startTable$2
+//@   functype TableConfig.AppliedIndexListener listenerContract
+//@   requires *m != nil
+//@   before listenerContract assert [C11.listener.name+C14] table == *name && rev == applied
+//@   modifies nothing
+//@ func (*Manager).startTable
+//@   maypanic
+//@   requires m != nil && m.nh != nil
+//@   before fsm.New assert [C14.start.fsm+C04+C08] tableName == name && stateMachineDir == m.cfg.Table.DataDir && fs == m.cfg.Table.FS && srt == m.cfg.Table.RecoveryType && af != nil
+//@   before dragonboat.(*NodeHost).StartOnDiskReplica assert [C14.start.shard] cfg.ShardID == id && cfg.ReplicaID == m.cfg.NodeID && !join && create != nil
+//@   modifies nothing
+// stopTable: asks the shard for its data path, leaves a cleanup record, then stops exactly the shard
+// it was asked to stop
+//@ import metrics "github.com/VictoriaMetrics/metrics"
+//@ trustframe "github.com/VictoriaMetrics/metrics"
+//@ func dragonboat.(*NodeHost).StaleRead
+//@   assumed
+//@   params nh, shardID, query
+//@   results v, err
+//@   ensures err == nil ==> typeIs(v, *fsm.PathResponse) ==> asType(v, *fsm.PathResponse) != nil
+//@   modifies nothing
+//@ func dragonboat.(*NodeHost).StopShard
+//@   assumed
+//@   params nh, shardID
+//@   modifies nothing
+//@ func dragonboat.(*NodeHost).NodeHostConfig
+//@   assumed
+//@   modifies nothing
+//@ func json.Marshal<*table.Cleanup>
+//@   assumed
+//@   params v
 //@   modifies nothing
 //@ func (*Manager).stopTable
-//@   assumed
-//@   requires m != nil
+//@   maypanic
+//@   requires m != nil && m.nh != nil && m.store != nil
+//@   before dragonboat.(*NodeHost).StaleRead assert [C14.stop.path] shardID == clusterID && typeIs(query, fsm.PathRequest)
+//@   before dragonboat.(*NodeHost).StopShard assert [C14.stop.shard] shardID == clusterID
 //@   modifies m.store.rHas, m.store.rPair, m.store.nwk, m.store.wVal, m.store.wVer, m.store.wDel, m.store.wPrevHas, m.store.wPrev, world.clock
 
 //@ import dragonboat "github.com/lni/dragonboat/v4"
